@@ -545,7 +545,7 @@ def _cid_case(it):
     return [s, c]
 
 
-@contract("FileHashStore._delete_object_only", cases={"any cid": _cid_case},
+@contract("FileHashStore._delete_object_only", assumes_clean_cwd=True, cases={"any cid": _cid_case},
           pre=lambda it, self, cid: [(n, f) for n, f in refs.acquire_pre("cid")(it, self, cid=cid)]
           + [("cid-is-digest", T.ishex(str_of(it, cid)))],
           props={"*": ("C04", "C06", "C08")})
